@@ -308,7 +308,11 @@ func c18Cited(s *c18State, version string, impl IRoomVersion, room *c18Room, ev 
 	for i, role := range []string{"join_rules", "join_rules", "history_visibility"} {
 		e := c18Base(version, room, role, i)
 		e.ID = fmt.Sprintf("$c18citing%d:a.example", i)
-		e.Auth = append([]string{evID}, e.Auth...) // cited first: walkers that stop at the first match reach it
+		if i != 1 {
+			// cited first (walkers that stop at the first match reach it), and by ONE fork only: the event
+			// is then in the auth difference, is replayed through the auth rules and applied like state
+			e.Auth = append([]string{evID}, e.Auth...)
+		}
 		tree := c18Finish(version, raJSON(version, e).without("hashes"), false)
 		var p PDU
 		var perr error
